@@ -11,20 +11,35 @@ pub mod blocks;
 pub mod c01;
 pub mod c02;
 pub mod c03;
+pub mod c04;
 pub mod c05;
 pub mod general;
 pub mod sweep;
 
 pub const FINE: Granularity = Granularity::Fine;
 pub const COARSE: Granularity = Granularity::Coarse;
+/// Focus on the steps that delimit an attempt: where it starts, where it reads, where it decides
+/// "fatal vs. wait", where the dependency graph re-offers it, and where work is claimed.
+pub const FOCUS_ATTEMPT: Granularity = Granularity::Focus(
+    "focus-attempt",
+    &[
+        grevm_verif_rt::pt::EXEC_BEGIN,
+        grevm_verif_rt::pt::MV_READ,
+        grevm_verif_rt::pt::DEP_UPDATE,
+        grevm_verif_rt::pt::ERROR_HEAD_CHECK,
+        grevm_verif_rt::pt::EXECUTION_CLAIMED,
+        grevm_verif_rt::pt::HARNESS_DB,
+    ],
+);
 
-pub const PROPS: &[&str] = &["C01", "C02", "C03", "C05"];
+pub const PROPS: &[&str] = &["C01", "C02", "C03", "C04", "C05"];
 
 pub fn jobs(prop: &str, tier: Tier) -> Vec<Job> {
     match prop {
         "C01" => c01::jobs(tier),
         "C02" => c02::jobs(tier),
         "C03" => c03::jobs(tier),
+        "C04" => c04::jobs(tier),
         "C05" => c05::jobs(tier),
         _ => vec![],
     }
